@@ -1,4 +1,4 @@
-CONSTANTS Lo = -1
+CONSTANTS Lo = 0
  Hi = 2
 INIT Init
 NEXT Next
